@@ -3,21 +3,11 @@
   reads back as the same number (same odd mantissa and exponent).
 -/
 import Asn1.Prim
+import Asn1.BerSpec
 import Proofs.PrimRT
 import Proofs.Digits
 
 namespace Asn1
-
-/-- canonical representative of a REAL value: zero, or base 2 with an odd mantissa; values in base
-    10 (not modelled: they go through CPython floats) stand for themselves -/
-def realKey : RealVal → RealVal
-  | .fin m b e =>
-    if m = 0 then .fin 0 10 0
-    else if b = 2 then
-      let r := normOdd m.natAbs m.natAbs e
-      .fin (if m < 0 then -(r.1 : Int) else r.1) 2 r.2
-    else .fin m b e
-  | r => r
 
 theorem normOdd_odd : ∀ (fuel m : Nat) (e : Int), m ≠ 0 → m ≤ fuel →
     (normOdd fuel m e).1 % 2 = 1
